@@ -105,6 +105,8 @@ def semantic_dimacs(prog):
             return False, "%s raises %s" % (what, r.cls)
         except Unknown as e:
             return None, "cannot fold to_dimacs_file: %s" % e
+        if Fm.cons != [list(c) for c in cls] or Fm.header != header:
+            return False, "%s changes the formula it writes" % what
         if text and not text.endswith("\n"):
             return False, "%s: the text does not end with a line end" % what
         lines = file_lines(text)
@@ -157,6 +159,8 @@ def semantic_opb(prog):
                 return False, "%s raises %s" % (what, r.cls)
             except Unknown as e:
                 return None, "cannot fold to_opb_file: %s" % e
+            if Fm.cons != [list(c) for c in cons] or Fm.header != header:
+                return False, "%s changes the formula it writes" % what
             if not text.endswith("\n"):
                 return False, "%s: the text does not end with a line end" % what
             lines = file_lines(text)
@@ -236,7 +240,7 @@ def semantic_latex(prog):
     labels = ["a", "b_1", "c^2", "d_{1}^{2}"]
     names = {l: i + 1 for i, l in enumerate(labels)}
     cnt = 0
-    cases = [("cnf", []), ("cnf", [[1, -2], [], [-3, 4, -1], [2]]), ("cnf", [[-4]]),
+    cases = [("cnf", []), ("cnf", [[1, -2], [], [-3, 4, -1], [2]]), ("cnf", [[-4]]), ("cnf", [[]]), ("cnf", [[], []]),
              ("opb", []), ("opb", [[(1, 1), (2, -2), ">=", 1], [(3, 4), "==", 3], [">=", 0], [(1, -3), (1, 1), (5, 2), ">=", 4]])]
     for kind, cons in cases:
         for split in (-1, 2):
@@ -253,6 +257,8 @@ def semantic_latex(prog):
                 except Unknown as e:
                     return None, "cannot fold _print_latex: %s" % e
                 text = out.text()
+                if [list(c) if isinstance(c, list) else c for c in Fm.cons] != [list(c) for c in cons]:
+                    return False, "%s changes the constraints stored in the formula to %s" % (what, Fm.cons)
                 if not text.startswith("\\begin{align}") or not text.endswith("\n\\end{align}"):
                     return False, "%s is not an align environment: %r" % (what, text[:60])
                 body = text[len("\\begin{align}"):-len("\n\\end{align}")]
